@@ -14,6 +14,7 @@ pub mod c15;
 pub mod c17;
 pub mod c01;
 pub mod c03;
+pub mod c05;
 pub mod c09;
 pub mod c10;
 pub mod parse;
@@ -30,6 +31,7 @@ pub fn dispatch(ctx: &mut Ctx) {
         "C07" => c07::check(ctx),
         "C01" => c01::check(ctx),
         "C03" => c03::check(ctx),
+        "C05" => c05::check(ctx),
         "C09" => c09::check(ctx),
         "C10" => c10::check(ctx),
         "PARSE" => parse::check(ctx),
